@@ -297,7 +297,7 @@ def _assembly_sparse(repo, col, R=None):
     if call is None:
         raise AnalysisError("comp_edges_to_indices no longer calls convert_to_csc")
     ct = exc.term(call)
-    row, colk = ct.kw.get("row_ind"), ct.kw.get("col_ind")
+    row, colk = idxm.call_arg(repo, cfi.file, ct, "row_ind"), idxm.call_arg(repo, cfi.file, ct, "col_ind")
     if row is None and len(ct.args) >= 3:
         row, colk = ct.args[1], ct.args[2]
     def which(t):
